@@ -2,7 +2,7 @@
 From RW Require Import Base.Bytes Base.BytesFacts Fmt.Codec Fmt.CodecFacts Fmt.Frame Wal.Model Wal.Spec Wal.Hist Wal.FaultHist
   Wal.CrashInv Wal.CrashFacts0 Wal.CrashFacts1 Wal.CrashFacts2 Wal.CrashFacts3 Wal.CrashFacts4 Wal.CrashFacts5
   Wal.CrashFacts6 Wal.CrashGlue Wal.CrashCalls1 Wal.CrashCalls2 Wal.FaultSim Wal.FaultSim2 Wal.FaultInv Wal.FaultFacts2
-  Wal.FaultFacts3 Wal.FaultStore Wal.FaultDelete Wal.FaultSteps Wal.FaultSeal Wal.FaultThm Gen.Constants.
+  Wal.FaultFacts3 Wal.FaultNames Wal.FaultStore Wal.FaultDelete Wal.FaultSteps Wal.FaultSeal Wal.FaultThm Gen.Constants.
 From Coq Require Import ZifyN ZifyNat ZifyBool.
 Open Scope N_scope.
 
@@ -81,22 +81,22 @@ Proof.
 Qed.
 
 (* ---- one more StoreLogs after any history ---- *)
-Lemma store_step_cases c nb h f ls : cfg_ok c -> sop_ok (OStore ls) -> nb + 4 < two64 -> FInv c nb h ->
+Lemma store_step_cases c nb h f fx ls : cfg_ok c -> sop_ok (OStore ls) -> nb + 4 < two64 -> FInv c nb h ->
   st_closed (ss_wal (fs_s h)) = false ->
-  let '(r, s1) := step_model c (with_fault (fs_s h) f) (OStore ls) in
+  let '(r, s1) := step_model c (with_fault (fs_s h) f fx) (OStore ls) in
   st_closed (ss_wal s1) = false /\
-  exists h', FInv c (nb + 2) h' /\ fs_s h' = with_fault s1 None /\
+  exists h', FInv c (nb + 2) h' /\ fs_s h' = with_fault s1 None fx_none /\
     ((r = ROk /\ spec_accepts (fs_nom h) (OStore ls) = Some (fs_nom h')) \/
      (r <> ROk /\ fs_nom h' = fs_nom h)).
 Proof.
   intros Hc Hop Hnb HI Hcl.
-  pose proof (fop_step c nb h f (OStore ls) Hc Hop ltac:(discriminate) ltac:(lia) HI) as HI'.
+  pose proof (fop_step c nb h f fx (OStore ls) Hc Hop ltac:(discriminate) ltac:(lia) HI) as HI'.
   unfold fop_run in HI'. rewrite Hcl in HI'. cbn [is_mutating] in HI'.
   pose proof HI as (Hok & Hf & Hgn & Hin & Hga & Hdo & HRD & HM).
   destruct (fs_s h) as [w e] eqn:Es. cbn [ss_wal ss_env] in *.
-  destruct (mut_step c nb w {| e_acts := e_acts e; e_disk := e_disk e; e_fault := f; e_m := e_m e |} (fs_nom h) (fs_alts h) (fs_defer h) (OStore ls) Hc Hop eq_refl ltac:(lia) Hcl HM HRD Hin Hdo)
+  destruct (mut_step c nb w {| e_acts := e_acts e; e_disk := e_disk e; e_fault := f; e_fx := fx; e_m := e_m e |} (fs_nom h) (fs_alts h) (fs_defer h) (OStore ls) Hc Hop eq_refl ltac:(lia) Hcl HM HRD Hin Hdo)
     as (r & w' & e' & Hst & Hcl' & Hpost).
-  change (with_fault {| ss_wal := w; ss_env := e |} f) with {| ss_wal := w; ss_env := {| e_acts := e_acts e; e_disk := e_disk e; e_fault := f; e_m := e_m e |} |} in *.
+  change (with_fault {| ss_wal := w; ss_env := e |} f fx) with {| ss_wal := w; ss_env := {| e_acts := e_acts e; e_disk := e_disk e; e_fault := f; e_fx := fx; e_m := e_m e |} |} in *.
   rewrite Hst in HI' |- *. cbn [ss_wal]. split; [exact Hcl'|].
   destruct Hpost as [(-> & nom' & Hacc & _)|(Hr & _)].
   - rewrite Hacc in HI'. eexists. split; [exact HI'|]. split; [reflexivity|]. left. split; [reflexivity|exact Hacc].
@@ -120,15 +120,15 @@ Proof.
 Qed.
 
 (* (b) every entry of a StoreLogs that returned nil is returned by GetLog *)
-Theorem acked_visible_in_process c steps s0 f ls l : fault_hist_ok c steps -> initial c = Some s0 -> sop_ok (OStore ls) ->
+Theorem acked_visible_in_process c steps s0 f fx ls l : fault_hist_ok c steps -> initial c = Some s0 -> sop_ok (OStore ls) ->
   let h := fault_run c (fault_init s0) steps in
   st_closed (ss_wal (fs_s h)) = false ->
-  let '(r, s1) := step_model c (with_fault (fs_s h) f) (OStore ls) in
+  let '(r, s1) := step_model c (with_fault (fs_s h) f fx) (OStore ls) in
   r = ROk -> In l ls -> fst (get_log (ss_wal s1) (l_index l) (ss_env s1)) = RLog l.
 Proof.
   intros Hok Hinit Hop h Hcl. destruct (fault_invariant c steps s0 Hok Hinit) as (nb & Hnb & HI). fold h in HI.
-  pose proof (store_step_cases c nb h f ls (proj1 Hok) Hop Hnb HI Hcl) as K.
-  destruct (step_model c (with_fault (fs_s h) f) (OStore ls)) as [r s1]. destruct K as (Hcl1 & h' & HI' & Hs' & Hcase).
+  pose proof (store_step_cases c nb h f fx ls (proj1 Hok) Hop Hnb HI Hcl) as K.
+  destruct (step_model c (with_fault (fs_s h) f fx) (OStore ls)) as [r s1]. destruct K as (Hcl1 & h' & HI' & Hs' & Hcase).
   intros -> Hin. destruct Hcase as [(_ & Hacc)|(K & _)]; [|congruence].
   assert (Hl : log_ok l) by (destruct Hop as (Hl & _); unfold logs_ok in Hl; rewrite Forall_forall in Hl; apply Hl; exact Hin).
   pose proof Hl as (Hwf & _ & Hb & _).
@@ -141,16 +141,16 @@ Qed.
 
 (* (c) a StoreLogs that returned an error changed nothing readers can see: GetLog
    answers from the state before the call *)
-Theorem failed_store_invisible c steps s0 f ls i : fault_hist_ok c steps -> initial c = Some s0 -> sop_ok (OStore ls) ->
+Theorem failed_store_invisible c steps s0 f fx ls i : fault_hist_ok c steps -> initial c = Some s0 -> sop_ok (OStore ls) ->
   let h := fault_run c (fault_init s0) steps in
   st_closed (ss_wal (fs_s h)) = false -> i < two64 ->
-  let '(r, s1) := step_model c (with_fault (fs_s h) f) (OStore ls) in
+  let '(r, s1) := step_model c (with_fault (fs_s h) f fx) (OStore ls) in
   r <> ROk ->
   result_eqb (res_class (fst (get_log (ss_wal s1) i (ss_env s1)))) (fst (step_spec (fs_nom h) (OGet i))) = true.
 Proof.
   intros Hok Hinit Hop h Hcl Hi. destruct (fault_invariant c steps s0 Hok Hinit) as (nb & Hnb & HI). fold h in HI.
-  pose proof (store_step_cases c nb h f ls (proj1 Hok) Hop Hnb HI Hcl) as K.
-  destruct (step_model c (with_fault (fs_s h) f) (OStore ls)) as [r s1]. destruct K as (Hcl1 & h' & HI' & Hs' & Hcase).
+  pose proof (store_step_cases c nb h f fx ls (proj1 Hok) Hop Hnb HI Hcl) as K.
+  destruct (step_model c (with_fault (fs_s h) f fx) (OStore ls)) as [r s1]. destruct K as (Hcl1 & h' & HI' & Hs' & Hcase).
   intros Hr. destruct Hcase as [(K & _)|(_ & Hnom)]; [congruence|].
   assert (Hcl' : st_closed (ss_wal (fs_s h')) = false) by (rewrite Hs'; exact Hcl1).
   pose proof (FInv_getlog c (nb + 2) h' i (proj1 Hok) ltac:(lia) HI' Hcl' Hi) as Hg.
@@ -159,17 +159,17 @@ Proof.
 Qed.
 
 (* in particular an index beyond the nominal log is not found *)
-Corollary failed_store_not_found c steps s0 f ls l : fault_hist_ok c steps -> initial c = Some s0 -> sop_ok (OStore ls) ->
+Corollary failed_store_not_found c steps s0 f fx ls l : fault_hist_ok c steps -> initial c = Some s0 -> sop_ok (OStore ls) ->
   let h := fault_run c (fault_init s0) steps in
   st_closed (ss_wal (fs_s h)) = false -> In l ls -> spec_get (sp_log (fs_nom h)) (l_index l) = None ->
-  let '(r, s1) := step_model c (with_fault (fs_s h) f) (OStore ls) in
+  let '(r, s1) := step_model c (with_fault (fs_s h) f fx) (OStore ls) in
   r <> ROk -> fst (get_log (ss_wal s1) (l_index l) (ss_env s1)) = RErrNotFound.
 Proof.
   intros Hok Hinit Hop h Hcl Hin Hnone.
   assert (Hl : l_index l < two64).
   { destruct Hop as (Hl & _). unfold logs_ok in Hl. rewrite Forall_forall in Hl. destruct (Hl l Hin) as (_ & _ & Hb & _). lia. }
-  pose proof (failed_store_invisible c steps s0 f ls (l_index l) Hok Hinit Hop Hcl Hl) as K. cbv zeta in K. fold h in K.
-  destruct (step_model c (with_fault (fs_s h) f) (OStore ls)) as [r s1]. intros Hr. specialize (K Hr).
+  pose proof (failed_store_invisible c steps s0 f fx ls (l_index l) Hok Hinit Hop Hcl Hl) as K. cbv zeta in K. fold h in K.
+  destruct (step_model c (with_fault (fs_s h) f fx) (OStore ls)) as [r s1]. intros Hr. specialize (K Hr).
   cbn [step_spec] in K. rewrite Hnone in K. cbn [fst] in K. apply res_class_notfound. exact K.
 Qed.
 
@@ -186,7 +186,7 @@ Proof.
   intros Hok Hinit h h'. destruct (fault_invariant c steps s0 Hok Hinit) as (nb & Hnb & HI). fold h in HI.
   pose proof (FInv_step c nb h FRestart (proj1 Hok) I ltac:(lia) HI) as HI'. fold h' in HI'.
   unfold h'. cbn [fstep_run].
-  destruct (reopen_step c nb h None (proj1 Hok) ltac:(lia) HI) as (r & s1 & Hst & Hcase). cbv zeta in Hst.
+  destruct (reopen_step c nb h None fx_none (proj1 Hok) ltac:(lia) HI) as (r & s1 & Hst & Hcase). cbv zeta in Hst.
   unfold h' in HI'. cbn [fstep_run] in HI'. rewrite Hst in HI' |- *.
   destruct Hcase as [(-> & Hcl & HL & HN & Hcand & Hfe)|(_ & Hfn & _)]; [|congruence].
   destruct s1 as [w1 e1]. cbn [ss_wal ss_env] in *.
@@ -195,3 +195,37 @@ Proof.
   apply (observed_clean c (nb + 1) w1 e1 HL HN).
 Qed.
 
+
+(* ------------------------------------------------------------------ *)
+(* the local effect of the three further fault kinds                    *)
+
+(* a failed file creation leaves the disk as it was, or with the empty file *)
+Lemma failed_create_effect si e e' : seg_create si e = (None, e') ->
+  e_disk e' = e_disk e \/ e_disk e' = apply_act (e_disk e) (ACreate (name_of si) 0).
+Proof.
+  unfold seg_create. destruct (si_base si =? 0); [intros E; inversion E; auto|].
+  destruct (lookup _ _).
+  - destruct (io_cases (AFail (ACreate (name_of si) (si_size_limit si))) e eq_refl) as [(x & Ex & Dx & _)|(x & Ex & Dx & _)];
+      rewrite Ex; intros E; inversion E; subst; left; rewrite Dx; reflexivity.
+  - destruct (io_cases (ACreate (name_of si) (si_size_limit si)) e eq_refl) as [(x & Ex & Dx & _)|(x & Ex & Dx & _)];
+      rewrite Ex; intros E; inversion E; subst.
+    destruct (fx_leave (e_fx e)); [right; unfold leave_entry; cbn [e_disk]; rewrite Dx; reflexivity|left; exact Dx].
+Qed.
+
+(* a failed deletion keeps the file and does not use up the armed fault *)
+Lemma failed_delete_effect n e e' : io (ADelete n) e = (false, e') ->
+  e_disk e' = e_disk e /\ e_fault e' = e_fault e /\ armed e = true /\ fx_del (e_fx e) = true.
+Proof.
+  unfold io. cbn [is_delete]. destruct (armed e) eqn:Ea, (fx_del (e_fx e)) eqn:Ed; cbn [andb]; intros E; inversion E; subst.
+  cbn. auto.
+Qed.
+
+(* Open with a failing directory listing: an error, the disk is left as MetaStore.Load made it *)
+Lemma failed_listing_fails_open c e :
+  negb (FirstExternalCodecID <=? c_codec c) && negb (c_codec c =? BinaryCodecID) = false ->
+  dk_inited (e_disk e) = true -> armed e = true -> fx_list (e_fx e) = true ->
+  open_wal c e = (OErr RErrIO, list_failed e) /\ e_disk (list_failed e) = e_disk e /\
+  fx_list (e_fx (list_failed e)) = false.
+Proof.
+  intros Hc Hi Ha Hl. unfold open_wal. rewrite Hc, Hi. cbn [negb]. rewrite Ha, Hl. cbn [andb]. auto.
+Qed.
